@@ -166,6 +166,9 @@ func (m *Merger) nextBySortOrder() (rec *sam.Record, err error) {
 }
 
 func (m *Merger) reassignReference(id int, rec *sam.Record) {
+	if m.refLinks != nil && rec.MateRef != nil {
+		rec.MateRef = m.refLinks[id][rec.MateRef.ID()]
+	}
 	if rec.Ref == nil || m.refLinks == nil {
 		return
 	}
